@@ -21,6 +21,7 @@ Clause ==
   ELSE IF T.winner \in CandsCast(Out) THEN "MentionsWinner"
   ELSE IF RLt(Total(P), Total(Out)) THEN "CreatesVotes"
   ELSE IF T.op = "fractional" THEN (IF Out = FractionalResult(P, T.winner, Tally, T.thr) THEN "" ELSE "Weights")
+  ELSE IF T.big THEN (IF IsRandomResult(P, T.winner, Tally, T.thr, Out) THEN "" ELSE "NotASubCollection")   \* piles too large to enumerate
   ELSE LET rs == RandomResults(P, T.winner, Tally, T.thr) IN
        IF ~\E o \in rs : o[1] = Out THEN "NotASubCollection"
        ELSE IF T.p[2] # 0 /\ ~\E o \in rs : o[1] = Out /\ o[2] = Rat2(T.p) THEN "Label"
